@@ -27,7 +27,7 @@ EXTENDS Integers, Sequences, FiniteSets, TLC
 Pow2(lo, hi) == {2^k : k \in lo..hi}
 Mult(k, lo, hi) == {k * i : i \in lo..hi}
 
-Workloads == {"aes", "atax", "bfs", "bicg", "bitonicsort", "concurrentkernel", "concurrentworkload", "conv2d",
+Workloads == {"aes", "argreuse", "atax", "bfs", "bicg", "bitonicsort", "concurrentkernel", "concurrentworkload", "conv2d",
               "fastwalshtransform", "fft", "fir", "floydwarshall", "im2col", "kmeans", "matrixmultiplication",
               "matrixtranspose", "memcopy", "nbody", "nw", "overlapcopy", "pagerank", "relu", "simpleconvolution", "spmv",
               "stencil2d", "vectoradd", "xor"}
@@ -35,7 +35,7 @@ Workloads == {"aes", "atax", "bfs", "bicg", "bitonicsort", "concurrentkernel", "
 \* not runnable here: lenet, minerva, vgg16 need the MNIST / ImageNet data sets, which the repository does not ship
 NotRunnable == {"lenet", "minerva", "vgg16"}
 
-Names == [aes |-> <<"length">>, atax |-> <<"x", "y">>, bfs |-> <<"node", "degree">>, bicg |-> <<"x", "y">>,
+Names == [aes |-> <<"length">>, argreuse |-> <<"length", "launches", "smask">>, atax |-> <<"x", "y">>, bfs |-> <<"node", "degree">>, bicg |-> <<"x", "y">>,
           bitonicsort |-> <<"length", "asc">>, concurrentkernel |-> <<"firlength", "bslength">>,
           concurrentworkload |-> <<"firlength", "bslength">>,
           conv2d |-> <<"N", "C", "H", "W", "oc", "kh", "kw", "padx", "pady", "stridex", "stridey">>,
@@ -57,6 +57,7 @@ Names == [aes |-> <<"length">>, atax |-> <<"x", "y">>, bfs |-> <<"node", "degree
 (***************************************************************************)
 Gen(w) ==
   CASE w = "aes" -> {<<l>> : l \in Mult(16, 1, 320)}                       \* whole 16-byte blocks; no bounds check in the kernel
+    [] w = "argreuse" -> {<<l, k, m>> : l \in 64..1024, k \in 2..6, m \in 0..127}      \* harness program (sysrun/argreuse.go)
     [] w = "atax" -> {<<x, x>> : x \in 1..320}                             \* host code sizes x[] by NX but the device copy by NY
     [] w = "bfs" -> {<<n, d>> : n \in 8..1500, d \in 1..4}
     [] w = "bicg" -> {<<x, y>> : x \in 1..320, y \in 1..320}
@@ -107,6 +108,7 @@ InMult(v, k, lo, hi) == v % k = 0 /\ In(v \div k, lo, hi)
 InDom(w, p) ==
   /\ Len(p) = Len(Names[w])
   /\ CASE w = "aes" -> InMult(p[1], 16, 1, MaxBoundaryWG * 64)
+       [] w = "argreuse" -> In(p[1], 64, 1024) /\ In(p[2], 2, 6) /\ In(p[3], 0, 127)
        [] w = "atax" -> In(p[1], 1, 320) /\ p[2] = p[1]
        [] w = "bfs" -> In(p[1], 8, 1500) /\ In(p[2], 1, 4)
        [] w = "bicg" -> In(p[1], 1, 320) /\ In(p[2], 1, 320)
@@ -204,11 +206,11 @@ NotMultiGPU == {"fastwalshtransform"}
 \* the gfx942 kernels take no global offset: only these do not depend on it in plain multi-GPU mode
 \* (cases.go: "Multi-GPU support via unified GPU mode" for CDNA3)
 NoOffsetSplit == {"atax", "bicg", "fft", "floydwarshall", "nbody", "pagerank", "spmv", "stencil2d", "matrixtranspose"}
-NoUnifiedMem == {"xor", "concurrentkernel", "concurrentworkload", "overlapcopy"}
+NoUnifiedMem == {"xor", "concurrentkernel", "concurrentworkload", "overlapcopy", "argreuse"}
 
 Archs(w) ==
   CASE w = "vectoradd" -> {"cdna3"}                                         \* only a gfx942 binary is shipped
-    [] w \in {"xor", "memcopy", "concurrentkernel", "concurrentworkload", "overlapcopy"} -> {"gcn3"}
+    [] w \in {"xor", "memcopy", "concurrentkernel", "concurrentworkload", "overlapcopy", "argreuse"} -> {"gcn3"}
     [] OTHER -> {"gcn3", "cdna3"}
 
 Classes == [mode : {"emu", "timing"}, gpu : {"none", "r9nano", "mi300a"}, arch : {"gcn3", "cdna3"},
@@ -260,6 +262,7 @@ Adm(w, p, c, scope) ==
 (***************************************************************************)
 SizeClasses(w) ==
   CASE w = "aes" -> <<<<1024>>, <<1040>>, <<2112>>, <<4096>>>>
+    [] w = "argreuse" -> <<<<512, 4, 14>>, <<300, 3, 4>>, <<1024, 5, 10>>>>
     [] w = "atax" -> <<<<64, 64>>, <<100, 100>>, <<256, 256>>, <<300, 300>>>>
     [] w = "bfs" -> <<<<64, 3>>, <<100, 2>>, <<1025, 3>>>>
     [] w = "bicg" -> <<<<64, 64>>, <<100, 60>>, <<257, 130>>>>
